@@ -1,5 +1,5 @@
 """C14 set_type and validate cast valid values and apply the error policy exactly."""
-import copy, re
+import copy, re, datetime
 from common import *
 from flowutil import *
 import dataflows as DF
@@ -23,7 +23,9 @@ ASSUMES = ['checked field names are distinct (NoDup fields)', 'custom handlers a
 VALUES = ['1', ' 2', '3 ', 'x', '', '1.5', '2,5', 'true', 'False', '0', '2020', '20', '1999-12-31', '31/12/1999', 'a', 'b',
           'NA', None, 1, 2, 7, 0, True, decimal.Decimal('2.50'), 3.0, 'é',
           # equal-and-equal-hash values of different types (1 == True == 1.0)
-          1.0, False, 0.0, decimal.Decimal('1')]
+          1.0, False, 0.0, decimal.Decimal('1'),
+          # temporal objects: a datetime is an instance of date, yet only a midnight datetime is a date value (round 9)
+          datetime.date(1999, 12, 31), datetime.datetime(1999, 12, 31, 0, 0), datetime.datetime(1999, 12, 31, 13, 5)]
 TYPES = [
     {'type': 'integer'}, {'type': 'number'}, {'type': 'number', 'decimalChar': ','}, {'type': 'boolean'},
     {'type': 'year'}, {'type': 'string'}, {'type': 'integer', 'constraints': {'minimum': 2}},
@@ -80,6 +82,12 @@ def gen_cases(rng, tier):
             cases.append({'kind': 'set_type', 'names': ['a', 'b'], 'rows': rows_enc(rows), 'name': 'a', 'regex': False,
                           'options': {'type': 'integer'}, 'policy': pol, 'transform': False, 'two': True, 'other_nomatch': how,
                           'shape': 'required', 'mv': None})
+    for pol in ('raise', 'drop', 'ignore', 'clear', 'custom5'):
+        rows = [{'a': datetime.datetime(2020, 1, 2, 0, 0), 'b': 'x'}, {'a': datetime.datetime(2020, 1, 2, 10, 30), 'b': 'y'}, {'a': datetime.date(2020, 1, 3), 'b': 'z'}]
+        cases.append({'kind': 'set_type', 'names': ['a', 'b'], 'rows': rows_enc(rows), 'name': 'a', 'regex': False,
+                      'options': {'type': 'date'}, 'policy': pol, 'transform': False, 'two': False, 'shape': 'required', 'mv': None})
+        cases.append({'kind': 'validate', 'names': ['a', 'b'], 'rows': rows_enc(rows),
+                      'schema': {'a': {'type': 'date'}, 'b': {'type': 'string'}}, 'policy': pol, 'shape': 'required', 'mv': None})
     return cases
 
 
